@@ -5012,12 +5012,134 @@ theorem lexLt_rowAt (t : Table) (hsel : t.sel = .all) (ds : List Nat) (hds : ∀
   exact this
 
 
+/-- equal keys in the leading columns: the last column decides -/
+theorem lexLtC_append_const : ∀ (firsts : List (List Cell)) (last : List Cell) (i j : Nat),
+    (∀ c ∈ firsts, (cellAt c i).key = (cellAt c j).key) →
+    lexLtC (firsts ++ [last]) i j = (cellAt last i).key.lt (cellAt last j).key
+  | [], last, i, j, _ => by
+    simp only [List.nil_append, lexLtC]
+    by_cases h : (cellAt last i).key.lt (cellAt last j).key = true
+    · simp [h]
+    · simp only [Bool.not_eq_true] at h
+      simp [h]
+  | c :: rest, last, i, j, h => by
+    have hc := h c (by simp)
+    simp only [List.cons_append, lexLtC, hc, Key.lt_irrefl, Bool.false_eq_true, if_false]
+    exact lexLtC_append_const rest last i j (fun c' hc' => h c' (by simp [hc']))
+
+theorem constFrom_keys {c : List Cell} {lo hi : Nat} (h : constFrom c lo hi = true) :
+    ∀ x, lo ≤ x → x < hi → (cellAt c x).key = (cellAt c lo).key := by
+  simp only [constFrom, Bool.and_eq_true, bne_iff_ne, ne_eq] at h
+  obtain ⟨⟨⟨_, h1⟩, h2⟩, h3⟩ := h
+  intro x hx1 hx2
+  have := (allIn_iff _ _ _).mp h3 x hx1 hx2
+  unfold pyEq at this
+  revert this h1 h2
+  generalize (cellAt c lo).key = a
+  generalize (cellAt c x).key = b
+  intro h1 h2 h3
+  cases a <;> cases b <;> simp_all [pyEq]
+
+/-- `_in_index_order` on cells that can be ordered never gives up; when it says "in order" no row
+from `n_old` on is smaller than the row before it -/
+theorem inIndexOrderOf_spec (cols : List (List Cell)) (nOld n : Nat)
+    (hcmp : ∀ x, x < n → ∀ y, y < n → ∀ c ∈ cols, (cellAt c x).key.comparable (cellAt c y).key = true) :
+    (inIndexOrderOf cols nOld n = .le ∧ ∀ x, nOld ≤ x → x < n → 0 < x → lexLtC cols x (x - 1) = false) ∨
+    inIndexOrderOf cols nOld n = .gt := by
+  unfold inIndexOrderOf
+  -- the boundary pair
+  have hb : ((if (0 < nOld && nOld < n) = true then rowOrd cols (nOld - 1) nOld else Ord3.le) = .le ∧
+        (0 < nOld → nOld < n → lexLtC cols nOld (nOld - 1) = false)) ∨
+      (if (0 < nOld && nOld < n) = true then rowOrd cols (nOld - 1) nOld else Ord3.le) = .gt := by
+    by_cases hc : (0 < nOld && nOld < n) = true
+    · simp only [hc, if_true]
+      simp only [Bool.and_eq_true, decide_eq_true_eq] at hc
+      rw [rowOrd_spec cols (nOld - 1) nOld (fun c hcm => hcmp _ (by omega) _ hc.2 c hcm)]
+      by_cases hl : lexLtC cols nOld (nOld - 1) = true
+      · right; simp [hl]
+      · left; simp only [Bool.not_eq_true] at hl; simp [hl]
+    · left
+      simp only [hc]
+      refine ⟨by simp, fun h1 h2 => ?_⟩
+      exfalso; apply hc; simp [h1, h2]
+  rcases hb with ⟨eb, hbd⟩ | eb
+  swap
+  · right; rw [eb]
+  rw [eb]
+  simp only
+  cases hl : cols.getLast? with
+  | none =>
+    left
+    have : cols = [] := by simpa using hl
+    subst this
+    exact ⟨rfl, fun _ _ _ _ => rfl⟩
+  | some last =>
+    simp only
+    have hsplit : cols = cols.dropLast ++ [last] := by
+      have hne : cols ≠ [] := by rintro rfl; simp at hl
+      have := List.dropLast_append_getLast hne
+      rw [List.getLast?_eq_getLast hne] at hl
+      rw [← Option.some.inj hl]; exact this.symm
+    by_cases hconst : (cols.dropLast.all fun c => constFrom c nOld n) = true
+    · simp only [hconst, if_true]
+      simp only [List.all_eq_true] at hconst
+      -- `sorted(last)` does not raise
+      have hac : allComparable ((List.range' nOld (n - nOld)).map (cellAt last)) = true := by
+        apply allComparable_of
+        intro a ha b hb'
+        simp only [List.mem_map, List.mem_range'_1] at ha hb'
+        obtain ⟨x, hx, rfl⟩ := ha
+        obtain ⟨y, hy, rfl⟩ := hb'
+        exact hcmp x (by omega) y (by omega) last (by rw [hsplit]; simp)
+      simp only [sortedFrom, pySortedBy_ok _ _ hac]
+      by_cases hid : sortBy (ltBy (cellAt last)) (List.range' nOld (n - nOld)) = List.range' nOld (n - nOld)
+      · left
+        simp only [hid, if_true, true_and]
+        have hs := sortBy_sorted (ltBy (cellAt last)) (ltBy_swo (cellAt last)) (List.range' nOld (n - nOld))
+        rw [hid] at hs
+        unfold SortedBy at hs
+        intro x h1 h2 h3
+        by_cases hx : x = nOld
+        · subst hx; exact hbd h3 h2
+        · -- both rows are new
+          rw [hsplit, lexLtC_append_const _ _ _ _ (fun c hc => by
+            rw [constFrom_keys (hconst c hc) x h1 h2, constFrom_keys (hconst c hc) (x - 1) (by omega) (by omega)])]
+          rw [List.pairwise_iff_getElem] at hs
+          have := hs (x - 1 - nOld) (x - nOld) (by rw [List.length_range']; omega) (by rw [List.length_range']; omega) (by omega)
+          simp only [List.getElem_range'] at this
+          have e1 : nOld + 1 * (x - 1 - nOld) = x - 1 := by omega
+          have e2 : nOld + 1 * (x - nOld) = x := by omega
+          rw [e1, e2] at this
+          exact this
+      · right
+        simp [hid]
+    · simp only [hconst]
+      by_cases hk : n ≤ nOld
+      · left
+        have hz : n - (nOld + 1) = 0 := by omega
+        rw [hz]
+        exact ⟨by simp [tailOrd], fun x h1 h2 _ => by omega⟩
+      · have hcmp' : ∀ x, nOld + 1 - 1 ≤ x → x < nOld + 1 + (n - (nOld + 1)) → ∀ y, nOld + 1 - 1 ≤ y → y < nOld + 1 + (n - (nOld + 1)) →
+            ∀ c ∈ cols, (cellAt c x).key.comparable (cellAt c y).key = true := by
+          intro x _ h2 y _ h4 c hc
+          have hx : x < n := by omega
+          have hy : y < n := by omega
+          exact hcmp x hx y hy c hc
+        rcases tailOrd_spec cols (n - (nOld + 1)) (nOld + 1) (by omega) hcmp' with ⟨e, hall⟩ | ⟨e, _⟩
+        · left
+          refine ⟨by simpa using e, ?_⟩
+          intro x h1 h2 h3
+          by_cases hx : x = nOld
+          · subst hx; exact hbd h3 h2
+          · exact hall x (by omega) (by omega)
+        · right; simpa using e
+
 /-- the second half of the repaired `insert`: what happens to the table `t'` the rows were appended to -/
 theorem keep_order (cfg : Cfg) (t t' : Table) (N N' : Nat) (hNN : N ≤ N')
     (hok : InsertOK t N) (hix : Indexed t N) (hne : t.indexes ≠ []) (hsub : ∀ c ∈ t.indexes, c ∈ t.columns)
     (hok' : InsertOK t' N') (hpre : PrefixOf t t') (hidx : t'.indexes = t.indexes) (hcols : ∀ c ∈ t.columns, c ∈ t'.columns)
     (hcells : idxCellsOKB t' N' = true) (R' : List (List Cell)) (hR' : t'.rows = .ok R') :
-    ∃ t'', (match t'.inIndexOrder (N - 1) with
+    ∃ t'', (match t'.inIndexOrder N with
         | .le => Except.ok t'
         | .cannot => .ok { t' with indexes := [] }
         | .gt =>
@@ -5053,7 +5175,7 @@ theorem keep_order (cfg : Cfg) (t t' : Table) (N N' : Nat) (hNN : N ≤ N')
     obtain ⟨d, hd⟩ := List.exists_mem_of_ne_nil _ hne
     exact List.ne_nil_of_mem (hcols d (hsub d hd))
   -- the columns `_in_index_order` looks at
-  have hio : t'.inIndexOrder (N - 1) = tailOrd (t.indexes.map t'.vcol) (N' - (N - 1 + 1)) (N - 1 + 1) := by
+  have hio : t'.inIndexOrder N = inIndexOrderOf (t.indexes.map t'.vcol) N N' := by
     unfold Table.inIndexOrder
     rw [hlen', hidx]
     simp only
@@ -5079,14 +5201,17 @@ theorem keep_order (cfg : Cfg) (t t' : Table) (N N' : Nat) (hNN : N ≤ N')
     simp only [List.getD, List.getElem?_map, List.getElem?_range hi, List.getElem?_range hj, Option.map_some, Option.getD_some]
     exact lexLt_rowAt t' hok'.sel t.indexes (fun d hd => hcols d (hsub d hd)) i j
   rw [hio]
-  -- the outcome of the look at the tail
-  have htail := tailOrd_spec (t.indexes.map t'.vcol) (N' - (N - 1 + 1)) (N - 1 + 1) (by omega)
-  by_cases hk : N' - (N - 1 + 1) = 0
-  · -- nothing to look at
-    rw [hk]
-    simp only [tailOrd]
+  -- the outcome of the look at the new rows
+  rcases inIndexOrderOf_spec (t.indexes.map t'.vcol) N N' (by
+      intro x hx y hy c hc
+      rw [List.mem_map] at hc
+      obtain ⟨d, hd, rfl⟩ := hc
+      exact hcmp d hd x y hx hy) with ⟨e, hall⟩ | e
+  · rw [e]
+    simp only
     have hs : ∀ i j, i < j → j < N' → lexLtK (Kt t') t.indexes j i = false :=
-      sorted_extend (Kt t') t.indexes N N' hold (fun x h1 h2 h3 => by omega)
+      sorted_extend (Kt t') t.indexes N N' hold (fun x h1 h2 h3 => by
+        rw [← lexLtC_eq_lexLtK]; exact hall x h1 h2 h3)
     refine ⟨t', rfl, rfl, hidx, hok', hindexed_of_sorted hs, R', hR', ?_⟩
     rw [indexS, sortBy_sorted_id]
     rw [List.pairwise_iff_getElem]
@@ -5095,25 +5220,7 @@ theorem keep_order (cfg : Cfg) (t t' : Table) (N N' : Nat) (hNN : N ≤ N')
     have := hrowsK i j (by omega) (by omega)
     simp only [List.getD, List.getElem?_eq_getElem hi, List.getElem?_eq_getElem hj, Option.getD_some] at this
     rw [this]; exact hs i j hij (by omega)
-  · have hend : N - 1 + 1 + (N' - (N - 1 + 1)) = N' := by omega
-    rcases htail (by
-        intro x h1 h2 y h3 h4 c hc
-        rw [List.mem_map] at hc
-        obtain ⟨d, hd, rfl⟩ := hc
-        exact hcmp d hd x y (by omega) (by omega)) with ⟨e, hall⟩ | ⟨e, _⟩
-    · rw [e]
-      simp only
-      have hs : ∀ i j, i < j → j < N' → lexLtK (Kt t') t.indexes j i = false :=
-        sorted_extend (Kt t') t.indexes N N' hold (fun x h1 h2 h3 => by
-          rw [← lexLtC_eq_lexLtK]; exact hall x (by omega) (by omega))
-      refine ⟨t', rfl, rfl, hidx, hok', hindexed_of_sorted hs, R', hR', ?_⟩
-      rw [indexS, sortBy_sorted_id]
-      rw [List.pairwise_iff_getElem]
-      intro i j hi hj hij
-      have hl : R'.length = N' := by rw [hR'e]; simp
-      have := hrowsK i j (by omega) (by omega)
-      simp only [List.getD, List.getElem?_eq_getElem hi, List.getElem?_eq_getElem hj, Option.getD_some] at this
-      rw [this]; exact hs i j hij (by omega)
+  · skip
     · -- out of order: sorted again by `index`
       rw [e]
       simp only
